@@ -802,9 +802,9 @@ func c20GenCov(c *hmain.Ctx) {
 				b = append(b, '\n')
 			}
 			if arrayRoot && valid == 1 && cutoff && mark && max > 0 && len(b) == max+1 && b[max] == '\n' {
-				// the cut takes the newline only, the array is still decodable and must carry the mark - which an array
-				// root silently does not get (notes/finding-C20-cut-mark-array-root.md; family 21b below)
-				b = b[:max]
+				// the cut takes the newline only, the array is still decodable and must carry the mark in its objects
+				// (repaired defect C20-cut-mark-array-root, family 21b below)
+				c.W.Count("pipeline-opts-op:json-array-root-cut-keeps-it-decodable")
 			}
 			if r.Chance(1, 25) {
 				b = []byte("\n")[:r.Intn(2)]
@@ -844,17 +844,17 @@ func c20GenCov(c *hmain.Ctx) {
 			hx.L(ops...)), true)
 	}
 
-	// ---- 21b. GENUINE DEFECT (notes/finding-C20-cut-mark-array-root.md), emitted only when the finding is listed: an
+	// ---- 21b. REPAIRED DEFECT C20-cut-mark-array-root (notes/finding-C20-cut-mark-array-root.md, /repo fix db5adcf): an
 	//           oversize JSON record that is still decodable after the cut (the cut takes the newline / trailing blanks
-	//           only) is delivered WITHOUT the configured mark when its root is an array: In sets the mark with
-	//           Root.AddFieldNoAlloc, a no-op on a non-object (the meta a few lines above is put into every object of
-	//           an array root). Object roots of the same length are marked.
-	if knownListed("C20-cut-mark-array-root") {
+	//           only) was delivered WITHOUT the configured mark when its root is an array: In set the mark with
+	//           Root.AddFieldNoAlloc, a no-op on a non-object. It now puts the mark into every object of an array root
+	//           (as the meta a few lines above). Object roots of the same length are marked as before.
+	{
 		for _, w := range []string{
 			`[{"m":""},7,{"n":1}]` + "\n",
 			`[{"m":"aa"},{"n":1}]` + "\n",
 			`[{"m":"aaaaaaaaaa"}]` + "\n",
-			`{"m":"aaaaaaaaaaaa"}` + "\n", // an object root: marked today, must stay so
+			`{"m":"aaaaaaaaaaaa"}` + "\n", // an object root: marked before the repair too
 		} {
 			for _, metaOn := range []bool{false, true} {
 				op := hx.L(hx.I(1), hx.I(0), hx.Bool(false), hx.Z(0), hx.Z(-1), hx.I(0), hx.B([]byte(w)), hx.I(1), hx.Bool(true), hx.I(0))
